@@ -557,6 +557,39 @@ def check_disambiguation_table(ctx, f, L, ps, where, capf):
     cb, cps = run_closure_in_context(f, g0.args[2], p0.store)
     okm = cb is not None and cb.argc >= 2 and len(mut) == 3
     meaning = {}
+    setflag = None
+    if cb is not None and cb.argc >= 2 and len(mut) == 1:
+        # the scan collects the rival origins in a set: exactly on the batches of another origin that reaches the
+        # destination the batch's origin is added, nothing else touches the set
+        batch = ("param", cb.local_name(2))
+        BF, BT = ("field", batch, "from"), ("field", batch, "to")
+        i0 = mut[0]
+        old0 = p0.store.get(caps[i0][1]) if not caps[i0][2] else None
+        oks = old0 is not None
+        for q in (cps if oks else []):
+            if q.end != "return":
+                oks = False
+                break
+            nh = {"N": None, "H": None}
+            for c_ in q.conds:
+                e_ = L.lift(c_[0])
+                if e_[0] == "bin" and e_[1] in ("Eq", "Ne") and {e_[2], e_[3]} == {FROM, BF} and isinstance(c_[1], int):
+                    nh["N"] = (e_[1] == "Ne") == bool(c_[1])
+                elif e_[0] == "has" and e_[1] == BT and e_[2] == TO and isinstance(c_[1], int):
+                    nh["H"] = bool(c_[1])
+                else:
+                    oks = False
+            v_ = q.store.get(("U", i0))
+            added = v_ is not None and v_ != old0 and L.lift(v_) in (("or", L.lift(old0), ("bbof", BF)), ("or", ("bbof", BF), L.lift(old0)))
+            same = v_ is None or v_ == old0
+            if nh["N"] is True and nh["H"] is True:
+                oks = oks and added
+            elif nh["N"] is False or nh["H"] is False:
+                oks = oks and same
+            else:
+                oks = False
+        if oks:
+            setflag = i0
     if okm:
         batch = ("param", cb.local_name(2))
         BF, BT = ("field", batch, "from"), ("field", batch, "to")
@@ -630,7 +663,7 @@ def check_disambiguation_table(ctx, f, L, ps, where, capf):
             for kn, st_ in sets.items():
                 if len(consts) == 1 and set(written[i]) == st_:
                     meaning[i] = (kn, next(iter(consts)))
-    if not (okm and sorted(k_ for k_, c_ in meaning.values()) == ["A", "Fc", "Rc"]):
+    if setflag is None and not (okm and sorted(k_ for k_, c_ in meaning.values()) == ["A", "Fc", "Rc"]):
         ctx.note("SAN writer: the disambiguation scan does not keep three Boolean flags (another origin reaches the destination / one on the mover's "
                  "file / one on its rank); the disambiguation table is not read (%s)" % {i: meaning.get(i) for i in mut})
         return
@@ -670,6 +703,25 @@ def check_disambiguation_table(ctx, f, L, ps, where, capf):
                     return True
                 if e == sym.FALSE:
                     return False
+                if setflag is not None and e[0] == "isempty":
+                    # questions put to the set of rival origins: any at all / any on the mover's file / on its rank
+                    P_ = ("post", gmn, g.idx, 0)
+                    if init.get(setflag) not in (("bbconst", 0), ("bb", ("int", 0, "u64"))):
+                        raise _NotRead("the set of rivals does not start empty")
+                    x_ = L.lift(e)[1]
+                    lp_ = L.lift(P_)
+                    if x_ == lp_:
+                        return not A
+                    if x_[0] == "and" and lp_ in (x_[1], x_[2]):
+                        o_ = x_[2] if x_[1] == lp_ else x_[1]
+                        if o_ in (("filebb", ("file", FROM)), ("call", "cozy_chess_types::file::File::bitboard", (("file", FROM),))):
+                            return not Fc
+                        if o_ in (("rankbb", ("rank", FROM)), ("call", "cozy_chess_types::rank::Rank::bitboard", (("rank", FROM),))):
+                            return not Rc
+                    if sym.contains(e, lambda y: y == P_):
+                        raise _NotRead("a question about the rivals that is not `none`, `none on the file`, `none on the rank`")
+                if setflag is not None and e in post:
+                    raise _NotRead("the set of rivals used as a value")
                 if e in post:
                     i = post[e]
                     kn, const = meaning[i]
@@ -741,7 +793,8 @@ def check_disambiguation_table(ctx, f, L, ps, where, capf):
                 bad = ("another origin reaches the destination: %s, one on the mover's file: %s, one on its rank: %s, pawn: %s, capture: %s -> file printed: %s, rank printed: %s (canonical: %s, %s)"
                        % (A, Fc, Rc, K, C, got[0], got[1], want[0], want[1]))
     ctx.check(bad is None, "san-write:disambiguation-table:minimal", "the origin coordinates printed are not the minimal disambiguation: %s" % bad, where,
-              sample={"table": "file = A & (!Fc | Rc) | pawn capture; rank = A & Fc", "paths": len(recs), "flags": {str(i): meaning[i] for i in mut}})
+              sample={"table": "file = A & (!Fc | Rc) | pawn capture; rank = A & Fc", "paths": len(recs),
+                      "flags": ({str(i): meaning[i] for i in mut} if setflag is None else "the set of rival origins")})
 
 
 class _NotRead(Exception):
